@@ -12,6 +12,12 @@ SPEC = Spec(
                        "zz_verif_c10_service_test.go": "c10/service_test.go"},
                 test="TestVerifC10Lifecycle", driver="drv_c10", n={"quick": 3000, "thorough": 40000}, timeout_s=1500,
                 mod_append=SHARED),
+        # the collector's own use of Service.Start/Shutdown (initial start failure, reload, failed reload): the real
+        # otelcol.Collector driven by the C20 gated harness; here it serves the exactly-once clause of C10 on those paths
+        # (signatures C20/service/component-shutdown-twice, C20/return/started-component-not-shut-down)
+        Harness(name="collector", module="otelcol", pkg="otelcol",
+                files={"zz_verif_c20_runloop_test.go": "c20/runloop_test.go"},
+                test="TestVerifC20RunLoop", driver="drv_c20", n={"quick": 2000, "thorough": 20000}, timeout_s=1500),
     ],
     rule="corpus of the 10 C09 topologies first, then random service configurations from the C09 generator (1-6 pipelines over "
          "1-4 signals, connectors with random support matrices, cyclic/unsupported variants) plus 0-4 extensions with Dependencies() "
@@ -25,7 +31,7 @@ SPEC = Spec(
         "gonum topo.Sort is a PARAMETER of the model: the theorems hold for every order that is duplicate-free, complete and has every edge forward (Sys.Admissible); that gonum returns such an order is not proved - the monitor checks the consequences on every observed log",
         "graph model of C09 (Model/C09.lean: createNodes/createEdges), tied by the C09 differential; here its node set and compSucc relation are what the monitor judges the real log against",
         "hand-written model of Graph.StartAll/ShutdownAll, Extensions.Start/Shutdown, Service.Start/Shutdown, collector shutdown-after-failed-start, sharedcomponent once-only; tied by the monitor (order clauses) and by exact differential on the order-independent observations (New result class, Start result, set of stopped components, set of failed Shutdowns, Shutdown result)",
-        "the harness plays the collector's part (Start; Shutdown exactly once also after a failed Start) instead of running otelcol.Collector",
+        "lifecycle harness: plays the collector's part (Start; Shutdown exactly once also after a failed Start); collector harness: the real otelcol.Collector (C20 gated harness and model) covers the collector's reload / failed-reload use of Service.Start/Shutdown",
         "NotifyConfig / PipelineWatcher hooks and status reporting are not modelled (C11/C20)",
     ],
     assumptions=[
